@@ -332,6 +332,9 @@ func (w *Wire) perFlow(r Reply, f *flowState) Reply {
 func (w *Wire) scheduleReply(f *flowState, probe []byte, r Reply, ttl int) {
 	r = w.perFlow(r, f)
 	enc, err := r.Encode(probe, f.fl)
+	if errors.Is(err, ErrNotApplicable) {
+		return
+	}
 	if err != nil {
 		w.log("HarnessError", "what", "encode: "+err.Error())
 		return
@@ -427,6 +430,9 @@ func (w *Wire) scheduleInjects(f *flowState) {
 				}
 				var err error
 				enc, err = w.perFlow(in.Reply, f).Encode(probe, f.fl)
+				if errors.Is(err, ErrNotApplicable) {
+					return
+				}
 				if err != nil {
 					w.log("HarnessError", "what", "inject encode: "+err.Error())
 					return
